@@ -78,7 +78,7 @@ def replay_columns(call):
     return _jobs(jobs)
 
 
-def replay(call):
+def _replay(call):
     kind = call.get('kind')
     fn = dict(df_index=replay_index, df_index_top=replay_index, np_index=replay_reindex_numpy, reducing=replay_reducing, df_reindex=replay_reindex_pandas,
               reindex_pandas=replay_reindex_pandas, reindex_numpy=replay_reindex_numpy, recolumn=replay_columns, df_sync=lambda c: replay_index(c) + replay_columns(c)).get(kind)
@@ -87,3 +87,8 @@ def replay(call):
     warnings.filterwarnings('ignore')
     bad = fn(call)
     return dict(fails=bool(bad), detail=('; '.join(bad))[:600] if bad else 'the clause holds on the real code for the whole battery of this obligation family')
+
+
+def replay(call):
+    from rac.ded_cache import cached
+    return cached(__name__, call, lambda: _replay(call), uses=(), deps=(__file__, B.__file__))
